@@ -1,28 +1,7 @@
-import Prom.Lemmas.Desc
-/-
-C09 — Only well-formed, pairwise distinct names reach an exposed sample.
-Strings are UTF-8 byte lists; `ascii_bytes_iff_ascii_chars` ties the byte-level character
-classes to Unicode characters (a byte < 0x80 in a UTF-8 string is exactly an ASCII character).
-(The gathered-sample part, with registry prefix and common labels, is in `Props/C07.lean`-
-side model `gathered_names_valid` below once the registry model is imported.)
--/
+import Prom.Lemmas.C09Aux
+
 namespace Prom.C09
 open Prom
-
-/-- `[a-zA-Z_:]` / `[a-zA-Z0-9_:]` as explicit byte ranges -/
-def MetricStartByte (b : UInt8) : Prop :=
-  (0x41 ≤ b ∧ b ≤ 0x5A) ∨ (0x61 ≤ b ∧ b ≤ 0x7A) ∨ b = 0x5F ∨ b = 0x3A
-def MetricRestByte (b : UInt8) : Prop := MetricStartByte b ∨ (0x30 ≤ b ∧ b ≤ 0x39)
-def LabelStartByte (b : UInt8) : Prop :=
-  (0x41 ≤ b ∧ b ≤ 0x5A) ∨ (0x61 ≤ b ∧ b ≤ 0x7A) ∨ b = 0x5F
-def LabelRestByte (b : UInt8) : Prop := LabelStartByte b ∨ (0x30 ≤ b ∧ b ≤ 0x39)
-
-theorem labelStart_iff (b : UInt8) : labelStart b = true ↔ LabelStartByte b := by
-  simp [labelStart, isAsciiAlpha, LabelStartByte, Bool.or_eq_true, Bool.and_eq_true, or_assoc]
-
-theorem metricStart_iff (b : UInt8) : metricStart b = true ↔ MetricStartByte b := by
-  simp [metricStart, labelStart, isAsciiAlpha, MetricStartByte, Bool.or_eq_true, Bool.and_eq_true, or_assoc]
-
 /-- **metric_name_regex** — a fully-qualified name is accepted exactly when it matches
     `[a-zA-Z_:][a-zA-Z0-9_:]*` -/
 theorem metric_name_regex (s : Str) :
